@@ -171,9 +171,20 @@ func c13Float(bits uint64) (cls string, msg string) {
 			msg = fmt.Sprintf("panic: %v", r)
 		}
 	}()
-	var d apd.Decimal
+	// the receiver is reused: it previously held one of the destination pre-states (negative, NaN, infinity, huge)
+	ds := dstStates()
+	d := *ds[int((bits>>52+bits)%uint64(len(ds)))].Build()
+	if bits&1 == 0 {
+		d = *DecJ{Form: ref.Inf, Neg: true, Coef: "99998", Exp: 11}.Build()
+	}
+	if bits&3 == 3 {
+		d = *DecJ{Coef: "15", Exp: -1, Neg: true}.Build()
+	}
 	if _, err := d.SetFloat64(f); err != nil {
 		return "float/error", fmt.Sprintf("SetFloat64 error %v", err)
+	}
+	if math.IsNaN(f) && d.Negative {
+		return "float/nan", fmt.Sprintf("SetFloat64(NaN) into a receiver that held a negative value gives %s", ToVal(&d))
 	}
 	g, err := d.Float64()
 	if err != nil && !(math.IsInf(g, 0) && math.IsInf(f, 0)) {
